@@ -213,6 +213,39 @@ def main(argv=None):
         raise WallClock()
     signal.signal(signal.SIGALRM, on_alarm)
     signal.alarm(wall)
+
+    # hard watchdog: a solver call that does not return (z3's native code ignores its own time limit now and then) blocks the signal
+    # handler above; this timer thread runs while the main thread sits in the foreign call (ctypes releases the GIL).  It lets the
+    # bounded native oracle decide the run, writes the evidence, and ends the process.
+    import threading
+
+    def hard_exit():
+        code = 2
+        try:
+            print("UNDECIDED property=%s reason=a solver call did not return within the wall-clock budget of %d s (+60 s)" % (pid, wall), flush=True)
+            run.notes.append("undecided: a solver call did not return within the wall-clock budget")
+            run.out_of_reach.append({"section": "(solver)", "reason": "a solver call did not return within %d s" % wall})
+            for ch in mp_children():
+                ch.terminate()
+            res = run_oracle(run, pid, "a solver call did not return")
+            if run.violations:
+                code = 1
+                for v in run.violations:
+                    if v.get("oracle"):
+                        print("VIOLATION property=%s replay=%s" % (pid, v["replay"]), flush=True)
+            elif not res.get("missing") and not res.get("crash"):
+                code = 0
+                print("BOUNDED property=%s proof out of reach (solver call did not return); bounded native oracle stood in: %s cases, 0 failures"
+                      % (pid, res.get("cases")), flush=True)
+            try:
+                run.write_evidence(level="exploration" if code != 2 else "proof")
+            except Exception:
+                pass
+        finally:
+            os._exit(code)
+    hard = threading.Timer(wall + 60, hard_exit)
+    hard.daemon = True
+    hard.start()
     try:
         mod = load_prop(pid)
         mod.build(run)
@@ -303,6 +336,7 @@ def main(argv=None):
         rc = 3
     finally:
         signal.alarm(0)
+        hard.cancel()
     if fired and rc == 0:
         run.notes.append("undecided: wall-clock budget of %d s exhausted" % wall)
         print("UNDECIDED property=%s reason=wall-clock budget of %d s exhausted" % (pid, wall))
